@@ -380,9 +380,9 @@ func genTasks(r *hx.Rand, n int, family int, base uint64, scale uint64) []task {
 }
 
 func gen(r *hx.Rand, tier string) []json.RawMessage {
-	n := 500
+	n := 350
 	if tier == "thorough" {
-		n = 6000
+		n = 5000
 	}
 	var out []json.RawMessage
 	add := func(in input) { out = append(out, hx.J(in)) }
